@@ -142,10 +142,11 @@ type XStyle struct {
 	Indent    int // white space between elements
 	CloseWS   int // white space before the closing '>' of start tags
 	Eq        int // white space around the '=' of attributes
+	ItemLang  int // 1: items of Seq / Bag arrays carry an xml:lang qualifier too
 }
 
 var WSMenu = []string{"\n   ", " ", "\n\n", "  \n ", "\t", "\r\n   ", strings.Repeat(" ", 37), strings.Repeat(" ", 130), strings.Repeat(" ", 600)}
-var indentMenu = []string{"\n  ", "", " ", "\n\n\n", strings.Repeat(" ", 130), "\r\n\t"}
+var indentMenu = []string{"\n  ", "", " ", "\n\n\n", strings.Repeat(" ", 130), "\r\n\t", strings.Repeat(" ", 511), strings.Repeat(" ", 512), strings.Repeat(" ", 513), strings.Repeat(" ", 600)}
 
 func init() {
 	// blank runs around the multiples of the reader's 128-byte look-ahead step
@@ -211,6 +212,7 @@ func ChooseXStyle(x Chooser, nprops int) XStyle {
 		Indent:    x.Choose("xmp.element-space", len(indentMenu)),
 		CloseWS:   x.Choose("xmp.space-before-close", 3),
 		Eq:        x.Choose("xmp.space-around-equals", len(eqMenu)),
+		ItemLang:  x.Choose("xmp.lang-qualifier-on-list-items", 2),
 	}
 	if nprops > 1 {
 		st.Swap = x.Choose("xmp.swap-neighbours", nprops)
@@ -325,6 +327,8 @@ func (rec *XRec) Serialize(st XStyle) []byte {
 						lang = "de-DE"
 					}
 					sb.WriteString("<rdf:li xml:lang=" + q + lang + q + ">" + esc(it) + "</rdf:li>" + ind)
+				} else if st.ItemLang == 1 && a.Spec.NS == "dc" {
+					sb.WriteString("<rdf:li xml:lang=" + q + "x-default" + q + ">" + esc(it) + "</rdf:li>" + ind)
 				} else {
 					sb.WriteString("<rdf:li>" + esc(it) + "</rdf:li>" + ind)
 				}
